@@ -1,11 +1,1071 @@
-//! C29 (not built yet)
-use crate::report::{Disagreement, Run};
-use serde_json::Value;
+//! C29 Row and column attributes change independently.
+//!
+//! Explicit-state breadth-first search to closure. A state is a real descriptor layout (`cols`, `rows`, the
+//! style-only cells that full-row / full-column styling leaves at intersections) together with the reference
+//! arrays (size, hidden, style per observed column / row). Every transition writes the layout into a real
+//! `Model` through the public fields, calls the real setter (through `Model` or through `UserModel`), reads
+//! ALL getters of ALL observed columns and rows and compares them with the reference in which exactly the
+//! addressed entries changed. Through `UserModel` each transition is additionally undone and the getters must
+//! be back at the reference of the state before.
+//!
+//! After a disagreement the reference is re-read from the implementation (the transition is reported, the
+//! search goes on from what the engine now holds), so every transition is judged on its own and one defect
+//! does not cascade.
 
-pub fn run(run: &mut Run) {
-    run.machinery_errors.push("C29: check not built yet".into());
+use crate::report::{Disagreement, Run};
+use ironcalc_base::expressions::types::Area;
+use ironcalc_base::types::{Cell, Col, Row, Style, Workbook};
+use ironcalc_base::{Model, UserModel, COLUMN_WIDTH_FACTOR, ROW_HEIGHT_FACTOR};
+use serde::{Deserialize, Serialize};
+use serde_json::{json, Value};
+use std::collections::{BTreeMap, HashSet};
+
+const LAST_COLUMN: i32 = 16_384;
+const LAST_ROW: i32 = 1_048_576;
+const DEF_W: f64 = 90.0;
+const ALT_W: f64 = 108.0;
+const DEF_H: f64 = 25.0;
+const ALT_H: f64 = 50.0;
+
+/// observed columns / rows (operations address a prefix of 1..=5)
+const OBS_COLS: [i32; 8] = [1, 2, 3, 4, 5, 6, 7, LAST_COLUMN];
+const OBS_ROWS: [i32; 8] = [1, 2, 3, 4, 5, 6, 7, 100];
+
+#[derive(Clone, Copy, PartialEq, Eq, Debug, Serialize, Deserialize)]
+pub enum Axis {
+    Col,
+    Row,
 }
 
-pub fn replay(_case: &Value) -> Vec<Disagreement> {
-    vec![]
+#[derive(Clone, Copy, PartialEq, Eq, Debug, Serialize, Deserialize)]
+pub enum Level {
+    Model,
+    User,
+}
+
+#[derive(Clone, PartialEq, Debug, Serialize, Deserialize)]
+pub enum Op {
+    /// set width / height of lo..=hi to the default-like value (false) or the other value (true)
+    Size(Axis, i32, i32, bool),
+    Hidden(Axis, i32, i32, bool),
+    /// Model level only: set the whole style to s1 (1) or s2 (2)
+    SetStyle(Axis, i32, u8),
+    /// Model: delete_column_style / delete_row_style; UserModel: range_clear_formatting on the full band
+    DelStyle(Axis, i32, i32),
+    /// UserModel level only: update_range_style on the full band, font.b (1) or font.i (2) := true
+    Merge(Axis, i32, i32, u8),
+}
+
+impl Op {
+    fn axis(&self) -> Axis {
+        match self {
+            Op::Size(a, ..) | Op::Hidden(a, ..) | Op::SetStyle(a, ..) | Op::DelStyle(a, ..) | Op::Merge(a, ..) => *a,
+        }
+    }
+    fn band(&self) -> (i32, i32) {
+        match self {
+            Op::Size(_, lo, hi, _) | Op::Hidden(_, lo, hi, _) | Op::DelStyle(_, lo, hi) | Op::Merge(_, lo, hi, _) => {
+                (*lo, *hi)
+            }
+            Op::SetStyle(_, i, _) => (*i, *i),
+        }
+    }
+    fn kind(&self) -> String {
+        let ax = match self.axis() {
+            Axis::Col => "column",
+            Axis::Row => "row",
+        };
+        let (lo, hi) = self.band();
+        let multi = if lo != hi { "s" } else { "" };
+        match self {
+            Op::Size(..) => format!("set-{}{}-size", ax, multi),
+            Op::Hidden(_, _, _, true) => format!("hide-{}{}", ax, multi),
+            Op::Hidden(_, _, _, false) => format!("unhide-{}{}", ax, multi),
+            Op::SetStyle(..) => format!("set-{}-style", ax),
+            Op::DelStyle(..) => format!("delete-{}{}-style", ax, multi),
+            Op::Merge(..) => format!("update-{}{}-style", ax, multi),
+        }
+    }
+}
+
+/// Reference entry of one column / row. `size` is the width / height the column has when it is visible
+/// (remembered while hidden); `style`: 0 none/default, 1 bold, 2 italic, 3 both, 99 anything else.
+#[derive(Clone, PartialEq, Debug)]
+pub struct Attr {
+    size: f64,
+    hidden: bool,
+    style: u8,
+}
+
+#[derive(Clone, Debug)]
+pub struct St {
+    cols: Vec<Col>,
+    rows: Vec<Row>,
+    /// style-only cells (row, column, style index)
+    cells: Vec<(i32, i32, i32)>,
+    rc: Vec<Attr>,
+    rr: Vec<Attr>,
+}
+
+fn style_of(id: u8) -> Style {
+    let mut s = Style::default();
+    if id & 1 != 0 {
+        s.font.b = true;
+    }
+    if id & 2 != 0 {
+        s.font.i = true;
+    }
+    s
+}
+
+fn style_id(s: &Option<Style>) -> u8 {
+    match s {
+        None => 0,
+        Some(s) => {
+            for id in 0..4u8 {
+                if *s == style_of(id) {
+                    return id;
+                }
+            }
+            99
+        }
+    }
+}
+
+/// Base workbook: one sheet, the style pool holds default, bold, italic, bold+italic at indices 0..=3.
+fn base_workbook() -> Workbook {
+    let mut m = Model::new_empty("c29", "en", "UTC", "en").expect("new_empty");
+    for id in 1..4u8 {
+        let idx = m.workbook.styles.create_new_style(&style_of(id));
+        assert_eq!(idx, id as i32, "style pool layout");
+    }
+    m.workbook
+}
+
+fn size_eq(a: f64, b: f64) -> bool {
+    (a - b).abs() <= 1e-9
+}
+
+// ---------------------------------------------------------------------------------------------------------
+// reading the implementation
+
+struct Seen {
+    visible: f64,
+    actual: f64,
+    hidden: bool,
+    style: u8,
+}
+
+fn read(model: &Model, axis: Axis, i: i32) -> Result<Seen, String> {
+    let ws = &model.workbook.worksheets[0];
+    match axis {
+        Axis::Col => Ok(Seen {
+            visible: model.get_column_width(0, i)?,
+            actual: ws.get_actual_column_width(i)?,
+            hidden: model.is_column_hidden(0, i)?,
+            style: style_id(&model.get_column_style(0, i)?),
+        }),
+        Axis::Row => {
+            let actual = ws
+                .rows
+                .iter()
+                .find(|r| r.r == i)
+                .map(|r| r.height * ROW_HEIGHT_FACTOR)
+                .unwrap_or(DEF_H);
+            Ok(Seen {
+                visible: model.get_row_height(0, i)?,
+                actual,
+                hidden: model.is_row_hidden(0, i)?,
+                style: style_id(&model.get_row_style(0, i)?),
+            })
+        }
+    }
+}
+
+fn read_all(model: &Model) -> Result<(Vec<Seen>, Vec<Seen>), String> {
+    let mut c = vec![];
+    for i in OBS_COLS {
+        c.push(read(model, Axis::Col, i)?);
+    }
+    let mut r = vec![];
+    for i in OBS_ROWS {
+        r.push(read(model, Axis::Row, i)?);
+    }
+    Ok((c, r))
+}
+
+/// The reference a layout written through the public fields stands for (first covering descriptor wins).
+fn ref_of_layout(cols: &[Col], rows: &[Row], styles: &dyn Fn(i32) -> u8) -> (Vec<Attr>, Vec<Attr>) {
+    let rc = OBS_COLS
+        .iter()
+        .map(|c| match cols.iter().find(|d| d.min <= *c && *c <= d.max) {
+            Some(d) => Attr {
+                size: if d.custom_width { d.width * COLUMN_WIDTH_FACTOR } else { DEF_W },
+                hidden: d.hidden,
+                style: d.style.map(styles).unwrap_or(0),
+            },
+            None => Attr { size: DEF_W, hidden: false, style: 0 },
+        })
+        .collect();
+    let rr = OBS_ROWS
+        .iter()
+        .map(|r| match rows.iter().find(|d| d.r == *r) {
+            Some(d) => Attr { size: d.height * ROW_HEIGHT_FACTOR, hidden: d.hidden, style: styles(d.s) },
+            None => Attr { size: DEF_H, hidden: false, style: 0 },
+        })
+        .collect();
+    (rc, rr)
+}
+
+fn pool_style(i: i32) -> u8 {
+    if (0..4).contains(&i) {
+        i as u8
+    } else {
+        99
+    }
+}
+
+// ---------------------------------------------------------------------------------------------------------
+// the reference transition
+
+fn expected(st: &St, op: &Op) -> (Vec<Attr>, Vec<Attr>) {
+    let mut rc = st.rc.clone();
+    let mut rr = st.rr.clone();
+    let (lo, hi) = op.band();
+    let (arr, obs): (&mut Vec<Attr>, &[i32]) = match op.axis() {
+        Axis::Col => (&mut rc, &OBS_COLS),
+        Axis::Row => (&mut rr, &OBS_ROWS),
+    };
+    for (k, i) in obs.iter().enumerate() {
+        if *i < lo || *i > hi {
+            continue;
+        }
+        let a = &mut arr[k];
+        match op {
+            Op::Size(ax, _, _, alt) => {
+                a.size = match (ax, alt) {
+                    (Axis::Col, false) => DEF_W,
+                    (Axis::Col, true) => ALT_W,
+                    (Axis::Row, false) => DEF_H,
+                    (Axis::Row, true) => ALT_H,
+                }
+            }
+            Op::Hidden(_, _, _, h) => a.hidden = *h,
+            Op::SetStyle(_, _, s) => a.style = *s,
+            Op::DelStyle(..) => a.style = 0,
+            Op::Merge(_, _, _, bit) => {
+                if a.style <= 3 {
+                    a.style |= *bit
+                }
+            }
+        }
+    }
+    (rc, rr)
+}
+
+fn apply_model(m: &mut Model, op: &Op) -> Result<(), String> {
+    match op {
+        Op::Size(Axis::Col, i, _, alt) => m.set_column_width(0, *i, if *alt { ALT_W } else { DEF_W }),
+        Op::Size(Axis::Row, i, _, alt) => m.set_row_height(0, *i, if *alt { ALT_H } else { DEF_H }),
+        Op::Hidden(Axis::Col, i, _, h) => m.set_column_hidden(0, *i, *h),
+        Op::Hidden(Axis::Row, i, _, h) => m.set_row_hidden(0, *i, *h),
+        Op::SetStyle(Axis::Col, i, s) => m.set_column_style(0, *i, &style_of(*s)),
+        Op::SetStyle(Axis::Row, i, s) => m.set_row_style(0, *i, &style_of(*s)),
+        Op::DelStyle(Axis::Col, i, _) => m.delete_column_style(0, *i),
+        Op::DelStyle(Axis::Row, i, _) => m.delete_row_style(0, *i),
+        Op::Merge(..) => Err("harness: Merge is a UserModel operation".into()),
+    }
+}
+
+fn band_area(axis: Axis, lo: i32, hi: i32) -> Area {
+    match axis {
+        Axis::Col => Area { sheet: 0, row: 1, column: lo, width: hi - lo + 1, height: LAST_ROW },
+        Axis::Row => Area { sheet: 0, row: lo, column: 1, width: LAST_COLUMN, height: hi - lo + 1 },
+    }
+}
+
+fn apply_user(um: &mut UserModel, op: &Op) -> Result<(), String> {
+    match op {
+        Op::Size(Axis::Col, lo, hi, alt) => um.set_columns_width(0, *lo, *hi, if *alt { ALT_W } else { DEF_W }),
+        Op::Size(Axis::Row, lo, hi, alt) => um.set_rows_height(0, *lo, *hi, if *alt { ALT_H } else { DEF_H }),
+        Op::Hidden(Axis::Col, lo, hi, h) => um.set_columns_hidden(0, *lo, *hi, *h),
+        Op::Hidden(Axis::Row, lo, hi, h) => um.set_rows_hidden(0, *lo, *hi, *h),
+        Op::DelStyle(ax, lo, hi) => um.range_clear_formatting(&band_area(*ax, *lo, *hi)),
+        Op::Merge(ax, lo, hi, bit) => um.update_range_style(
+            &band_area(*ax, *lo, *hi),
+            if *bit == 1 { "font.b" } else { "font.i" },
+            "true",
+        ),
+        Op::SetStyle(..) => Err("harness: SetStyle is a Model operation".into()),
+    }
+}
+
+// ---------------------------------------------------------------------------------------------------------
+// judging one transition
+
+#[derive(Clone, Debug)]
+pub struct Wrong {
+    sig: String,
+    detail: String,
+}
+
+fn size_class(axis: Axis, v: f64) -> &'static str {
+    let (d, a) = match axis {
+        Axis::Col => (DEF_W, ALT_W),
+        Axis::Row => (DEF_H, ALT_H),
+    };
+    if size_eq(v, 0.0) {
+        "zero"
+    } else if size_eq(v, d) {
+        "default"
+    } else if size_eq(v, a) {
+        "alt"
+    } else {
+        "other"
+    }
+}
+
+/// Compares what the getters say with the reference arrays; returns (token, line) per wrong entry. A token
+/// names the role of the entry (target / other / other-axis), the descriptor it had in `ctx_state`, the
+/// attribute and the class of the wrong value.
+fn compare(
+    op: &Op,
+    ctx_state: &St,
+    pre: (&[Attr], &[Attr]),
+    exp: (&[Attr], &[Attr]),
+    got: &(Vec<Seen>, Vec<Seen>),
+) -> Vec<(String, String)> {
+    let mut out = vec![];
+    let (lo, hi) = op.band();
+    for (axis, obs, pre, exp, got) in [
+        (Axis::Col, &OBS_COLS[..], pre.0, exp.0, &got.0),
+        (Axis::Row, &OBS_ROWS[..], pre.1, exp.1, &got.1),
+    ] {
+        for (k, i) in obs.iter().enumerate() {
+            let e = &exp[k];
+            let g = &got[k];
+            let role = if axis != op.axis() {
+                "other-axis"
+            } else if *i >= lo && *i <= hi {
+                "target"
+            } else {
+                "other"
+            };
+            let who = format!("{}[{}]", role, context(ctx_state, axis, *i));
+            let name = format!("{}{}", if axis == Axis::Col { "column " } else { "row " }, i);
+            if !size_eq(e.size, g.actual) {
+                out.push((
+                    format!("{}.size(got={})", who, size_class(axis, g.actual)),
+                    format!("{}: size expected {} (was {}), engine holds {}", name, e.size, pre[k].size, g.actual),
+                ));
+            }
+            if e.hidden != g.hidden {
+                out.push((
+                    format!("{}.hidden(got={})", who, g.hidden),
+                    format!("{}: hidden expected {} (was {}), got {}", name, e.hidden, pre[k].hidden, g.hidden),
+                ));
+            }
+            if e.style != g.style {
+                let cls = if g.style == pre[k].style {
+                    "kept-old"
+                } else if g.style == 0 {
+                    "none"
+                } else {
+                    "different"
+                };
+                out.push((
+                    format!("{}.style(got={})", who, cls),
+                    format!("{}: style expected {} (was {}), got {}", name, e.style, pre[k].style, g.style),
+                ));
+            }
+            // the visible size getter must agree with (hidden, size)
+            let ev = if g.hidden { 0.0 } else { g.actual };
+            if !size_eq(ev, g.visible) {
+                out.push((
+                    format!("{}.visible-size-getter", who),
+                    format!(
+                        "{}: getter returns {} although hidden={} and the stored size is {}",
+                        name, g.visible, g.hidden, g.actual
+                    ),
+                ));
+            }
+        }
+    }
+    out
+}
+
+/// Descriptor context of column / row `i` in a state.
+fn context(st: &St, axis: Axis, i: i32) -> String {
+    let mut t = vec![];
+    match axis {
+        Axis::Col => match st.cols.iter().find(|d| d.min <= i && i <= d.max) {
+            None => t.push("no-descriptor"),
+            Some(d) => {
+                t.push(if d.min == d.max { "single-descriptor" } else { "span-descriptor" });
+                if d.hidden {
+                    t.push("hidden");
+                }
+            }
+        },
+        Axis::Row => match st.rows.iter().find(|d| d.r == i) {
+            None => t.push("no-descriptor"),
+            Some(d) => {
+                t.push("single-descriptor");
+                if d.hidden {
+                    t.push("hidden");
+                }
+            }
+        },
+    }
+    t.join("+")
+}
+
+/// One disagreement per distinct token (all lines of that token in the detail).
+fn wrongs_of(head: &str, op: &Op, suffix: &str, found: Vec<(String, String)>) -> Vec<Wrong> {
+    let mut by: BTreeMap<String, Vec<String>> = BTreeMap::new();
+    for (t, l) in found {
+        by.entry(t).or_default().push(l);
+    }
+    by.into_iter()
+        .map(|(t, ls)| Wrong {
+            sig: format!("{} wrong={}", head, t),
+            detail: format!("{:?}{}\n{}", op, suffix, ls.join("\n")),
+        })
+        .collect()
+}
+
+fn load_layout(ws: &mut ironcalc_base::types::Worksheet, st: &St) {
+    ws.cols = st.cols.clone();
+    ws.rows = st.rows.clone();
+    ws.sheet_data.clear();
+    for (r, c, s) in &st.cells {
+        ws.sheet_data.entry(*r).or_default().insert(*c, Cell::EmptyCell { s: *s });
+    }
+}
+
+fn read_cells(ws: &ironcalc_base::types::Worksheet) -> Result<Vec<(i32, i32, i32)>, String> {
+    let mut v = vec![];
+    for (r, rd) in &ws.sheet_data {
+        for (c, cell) in rd {
+            match cell {
+                Cell::EmptyCell { s } => v.push((*r, *c, *s)),
+                other => return Err(format!("a style operation created a non-empty cell {:?} at R{}C{}", other, r, c)),
+            }
+        }
+    }
+    v.sort();
+    Ok(v)
+}
+
+fn resync(got: &(Vec<Seen>, Vec<Seen>)) -> (Vec<Attr>, Vec<Attr>) {
+    let f = |v: &Vec<Seen>| {
+        v.iter()
+            .map(|s| Attr { size: s.actual, hidden: s.hidden, style: s.style })
+            .collect::<Vec<_>>()
+    };
+    (f(&got.0), f(&got.1))
+}
+
+pub struct Worker {
+    level: Level,
+    base: Workbook,
+    model: Model<'static>,
+}
+
+impl Worker {
+    pub fn new(level: Level) -> Worker {
+        let base = base_workbook();
+        let model = Model::from_workbook(base.clone(), "en").expect("from_workbook");
+        Worker { level, base, model }
+    }
+
+    /// Runs one transition on the real code. Returns the successor (None after a panic / error) and the
+    /// disagreements with the reference.
+    pub fn step(&mut self, st: &St, op: &Op) -> (Option<St>, Vec<Wrong>, bool) {
+        let (erc, err_) = expected(st, op);
+        let nontrivial = erc != st.rc || err_ != st.rr;
+        let mut wrongs = vec![];
+        let lvl = match self.level {
+            Level::Model => "model",
+            Level::User => "user",
+        };
+        let head = format!("{} op={}", lvl, op.kind());
+        let mut um_slot: Option<UserModel<'static>> = None;
+        let res: Result<Result<(), String>, String> = match self.level {
+            Level::Model => {
+                load_layout(&mut self.model.workbook.worksheets[0], st);
+                let m = &mut self.model;
+                crate::env::guarded(|| apply_model(m, op))
+            }
+            Level::User => {
+                let mut wb = self.base.clone();
+                load_layout(&mut wb.worksheets[0], st);
+                let model = Model::from_workbook(wb, "en").expect("from_workbook");
+                let mut um = UserModel::from_model(model);
+                let r = crate::env::guarded(|| apply_user(&mut um, op));
+                um_slot = Some(um);
+                r
+            }
+        };
+        match res {
+            Err(p) => {
+                wrongs.push(Wrong {
+                    sig: format!("{} panic at={}", head, p.split(" @ ").last().unwrap_or("")),
+                    detail: format!("the operation panicked: {}", p),
+                });
+                if self.level == Level::Model {
+                    // the shared model may be half-written: rebuild it
+                    self.model = Model::from_workbook(self.base.clone(), "en").expect("from_workbook");
+                }
+                return (None, wrongs, nontrivial);
+            }
+            Ok(Err(e)) => {
+                wrongs.push(Wrong {
+                    sig: format!("{} error", head),
+                    detail: format!("a valid operation was refused: {}", e),
+                });
+                return (None, wrongs, nontrivial);
+            }
+            Ok(Ok(())) => {}
+        }
+        let model: &Model = match &um_slot {
+            Some(um) => um.get_model(),
+            None => &self.model,
+        };
+        let got = match read_all(model) {
+            Ok(g) => g,
+            Err(e) => {
+                wrongs.push(Wrong { sig: format!("{} getter-error", head), detail: e });
+                return (None, wrongs, nontrivial);
+            }
+        };
+        let found = compare(op, st, (&st.rc, &st.rr), (&erc, &err_), &got);
+        let ws = &model.workbook.worksheets[0];
+        let cells = match read_cells(ws) {
+            Ok(c) => c,
+            Err(e) => {
+                wrongs.push(Wrong { sig: format!("{} content-cell-created", head), detail: e });
+                return (None, wrongs, nontrivial);
+            }
+        };
+        if self.level == Level::Model && !cells.is_empty() {
+            wrongs.push(Wrong {
+                sig: format!("{} cells-created", head),
+                detail: format!("a Model-level attribute setter created cells {:?}", cells),
+            });
+        }
+        let next = if found.is_empty() {
+            St { cols: ws.cols.clone(), rows: ws.rows.clone(), cells, rc: erc, rr: err_ }
+        } else {
+            wrongs.extend(wrongs_of(&head, op, "", found));
+            let (rc, rr) = resync(&got);
+            St { cols: ws.cols.clone(), rows: ws.rows.clone(), cells, rc, rr }
+        };
+        // undo must lead back to the reference of the state before
+        if let Some(mut um) = um_slot {
+            match crate::env::guarded(|| um.undo()) {
+                Err(p) => wrongs.push(Wrong {
+                    sig: format!("{} undo panic at={}", head, p.split(" @ ").last().unwrap_or("")),
+                    detail: format!("undo panicked: {}", p),
+                }),
+                Ok(Err(e)) => wrongs.push(Wrong {
+                    sig: format!("{} undo error", head),
+                    detail: format!("undo was refused: {}", e),
+                }),
+                Ok(Ok(())) => match read_all(um.get_model()) {
+                    Err(e) => wrongs.push(Wrong { sig: format!("{} undo getter-error", head), detail: e }),
+                    Ok(back) => {
+                        // `pre` for the classification of a wrong style is the state after the operation
+                        let found = compare(op, st, (&next.rc, &next.rr), (&st.rc, &st.rr), &back);
+                        wrongs.extend(wrongs_of(&format!("{} undo", head), op, " then undo", found));
+                    }
+                },
+            }
+        }
+        (Some(next), wrongs, nontrivial)
+    }
+}
+
+// ---------------------------------------------------------------------------------------------------------
+// state keys, JSON
+
+fn key_of(st: &St, sort_rows: bool) -> u128 {
+    use std::fmt::Write;
+    let mut s = String::with_capacity(256);
+    for c in &st.cols {
+        let _ = write!(s, "c{},{},{},{},{},{:?};", c.min, c.max, c.width, c.custom_width, c.hidden, c.style);
+    }
+    let mut rows: Vec<&Row> = st.rows.iter().collect();
+    if sort_rows {
+        rows.sort_by_key(|r| r.r);
+    }
+    for r in rows {
+        let _ = write!(s, "r{},{},{},{},{},{};", r.r, r.height, r.custom_format, r.custom_height, r.s, r.hidden);
+    }
+    for c in &st.cells {
+        let _ = write!(s, "x{},{},{};", c.0, c.1, c.2);
+    }
+    for a in st.rc.iter().chain(st.rr.iter()) {
+        let _ = write!(s, "a{},{},{};", a.size, a.hidden, a.style);
+    }
+    crate::env::digest(&s)
+}
+
+fn layout_json(st: &St) -> Value {
+    json!({
+        "cols": st.cols.iter().map(|c| json!([c.min, c.max, c.width, c.custom_width, c.hidden, c.style])).collect::<Vec<_>>(),
+        "rows": st.rows.iter().map(|r| json!([r.r, r.height, r.custom_format, r.custom_height, r.s, r.hidden])).collect::<Vec<_>>(),
+        "cells": st.cells.iter().map(|c| json!([c.0, c.1, c.2])).collect::<Vec<_>>(),
+        "ref_cols": st.rc.iter().map(|a| json!([a.size, a.hidden, a.style])).collect::<Vec<_>>(),
+        "ref_rows": st.rr.iter().map(|a| json!([a.size, a.hidden, a.style])).collect::<Vec<_>>(),
+    })
+}
+
+fn layout_parse(v: &Value) -> Option<St> {
+    let mut cols = vec![];
+    for c in v["cols"].as_array()? {
+        cols.push(Col {
+            min: c[0].as_i64()? as i32,
+            max: c[1].as_i64()? as i32,
+            width: c[2].as_f64()?,
+            custom_width: c[3].as_bool()?,
+            hidden: c[4].as_bool()?,
+            style: c[5].as_i64().map(|x| x as i32),
+        });
+    }
+    let mut rows = vec![];
+    for r in v["rows"].as_array()? {
+        rows.push(Row {
+            r: r[0].as_i64()? as i32,
+            height: r[1].as_f64()?,
+            custom_format: r[2].as_bool()?,
+            custom_height: r[3].as_bool()?,
+            s: r[4].as_i64()? as i32,
+            hidden: r[5].as_bool()?,
+        });
+    }
+    let mut cells = vec![];
+    for c in v["cells"].as_array()? {
+        cells.push((c[0].as_i64()? as i32, c[1].as_i64()? as i32, c[2].as_i64()? as i32));
+    }
+    let attrs = |v: &Value| -> Option<Vec<Attr>> {
+        let mut out = vec![];
+        for a in v.as_array()? {
+            out.push(Attr { size: a[0].as_f64()?, hidden: a[1].as_bool()?, style: a[2].as_u64()? as u8 });
+        }
+        Some(out)
+    };
+    Some(St { cols, rows, cells, rc: attrs(&v["ref_cols"])?, rr: attrs(&v["ref_rows"])? })
+}
+
+fn case_json(level: Level, st: &St, op: &Op, start: &str, path: &[Op]) -> Value {
+    json!({"level": level, "before": layout_json(st), "op": op, "reached_from": start, "reached_by": path})
+}
+
+// ---------------------------------------------------------------------------------------------------------
+// start layouts
+
+fn col(min: i32, max: i32, width: f64, custom_width: bool, hidden: bool, style: Option<i32>) -> Col {
+    Col { min, max, width, custom_width, hidden, style }
+}
+fn row(r: i32, height: f64, custom_height: bool, hidden: bool, s: i32) -> Row {
+    Row { r, height, custom_format: s != 0, custom_height, s, hidden }
+}
+
+fn start(cols: Vec<Col>, rows: Vec<Row>) -> St {
+    let (rc, rr) = ref_of_layout(&cols, &rows, &pool_style);
+    St { cols, rows, cells: vec![], rc, rr }
+}
+
+fn col_layouts() -> Vec<(&'static str, Vec<Col>)> {
+    let alt = ALT_W / COLUMN_WIDTH_FACTOR;
+    let def = DEF_W / COLUMN_WIDTH_FACTOR;
+    vec![
+        ("no-descriptors", vec![]),
+        (
+            "single-descriptors",
+            vec![
+                col(1, 1, alt, true, false, None),
+                col(2, 2, def, false, true, Some(1)),
+                col(3, 3, alt, true, true, Some(2)),
+            ],
+        ),
+        ("span-2-4", vec![col(2, 4, alt, true, false, Some(1))]),
+        ("hidden-span-2-4", vec![col(2, 4, alt, true, true, None)]),
+        ("whole-grid-styled", vec![col(1, LAST_COLUMN, def, false, false, Some(2))]),
+        (
+            "imported-like",
+            vec![col(1, 2, alt, true, false, Some(1)), col(3, LAST_COLUMN, 9.0, false, false, None)],
+        ),
+    ]
+}
+
+fn row_layouts() -> Vec<(&'static str, Vec<Row>)> {
+    let alt = ALT_H / ROW_HEIGHT_FACTOR;
+    let def = DEF_H / ROW_HEIGHT_FACTOR;
+    vec![
+        ("no-descriptors", vec![]),
+        (
+            "single-descriptors",
+            vec![row(1, alt, true, false, 1), row(2, def, false, true, 0), row(3, alt, true, true, 2)],
+        ),
+        (
+            "unsorted-descriptors",
+            vec![row(3, def, false, false, 2), row(1, 20.0, false, true, 0), row(2, alt, true, false, 1)],
+        ),
+    ]
+}
+
+// ---------------------------------------------------------------------------------------------------------
+// the search
+
+pub struct Plan {
+    name: &'static str,
+    level: Level,
+    starts: Vec<(String, St)>,
+    ops: Vec<Op>,
+    sort_rows: bool,
+}
+
+fn model_ops(axis: Axis, n: i32) -> Vec<Op> {
+    let mut v = vec![];
+    for i in 1..=n {
+        v.push(Op::Size(axis, i, i, false));
+        v.push(Op::Size(axis, i, i, true));
+        v.push(Op::Hidden(axis, i, i, true));
+        v.push(Op::Hidden(axis, i, i, false));
+        v.push(Op::SetStyle(axis, i, 1));
+        v.push(Op::SetStyle(axis, i, 2));
+        v.push(Op::DelStyle(axis, i, i));
+    }
+    v
+}
+
+fn user_ops(axis: Axis, n: i32) -> Vec<Op> {
+    let mut v = vec![];
+    for i in 1..=n {
+        v.push(Op::Size(axis, i, i, false));
+        v.push(Op::Size(axis, i, i, true));
+        v.push(Op::Hidden(axis, i, i, true));
+        v.push(Op::Hidden(axis, i, i, false));
+        v.push(Op::Merge(axis, i, i, 1));
+        v.push(Op::Merge(axis, i, i, 2));
+        v.push(Op::DelStyle(axis, i, i));
+    }
+    // bands of two
+    for i in 1..n {
+        v.push(Op::Size(axis, i, i + 1, true));
+        v.push(Op::Hidden(axis, i, i + 1, true));
+        v.push(Op::Hidden(axis, i, i + 1, false));
+        v.push(Op::Merge(axis, i, i + 1, 1));
+        v.push(Op::DelStyle(axis, i, i + 1));
+    }
+    v
+}
+
+pub fn plans(thorough: bool) -> Vec<Plan> {
+    let mut out = vec![];
+    let styled_row = vec![row(2, DEF_H / ROW_HEIGHT_FACTOR, false, false, 2)];
+    let styled_col = vec![col(2, 3, ALT_W / COLUMN_WIDTH_FACTOR, true, false, Some(1))];
+    // Model level, columns
+    let n = if thorough { 4 } else { 3 };
+    let mut starts: Vec<(String, St)> = col_layouts()
+        .into_iter()
+        .map(|(name, cols)| (format!("cols:{}", name), start(cols, vec![])))
+        .collect();
+    starts.push(("cols:span-2-4 rows:styled-row-2".into(), start(col_layouts()[2].1.clone(), styled_row.clone())));
+    out.push(Plan { name: "model-columns", level: Level::Model, starts, ops: model_ops(Axis::Col, n), sort_rows: false });
+    // Model level, rows
+    let n = if thorough { 4 } else { 3 };
+    let mut starts: Vec<(String, St)> = row_layouts()
+        .into_iter()
+        .map(|(name, rows)| (format!("rows:{}", name), start(vec![], rows)))
+        .collect();
+    starts.push(("rows:single-descriptors cols:span-2-3".into(), start(styled_col.clone(), row_layouts()[1].1.clone())));
+    out.push(Plan { name: "model-rows", level: Level::Model, starts, ops: model_ops(Axis::Row, n), sort_rows: true });
+    // Model level, both axes
+    let n = if thorough { 2 } else { 1 };
+    let mut ops = model_ops(Axis::Col, n);
+    ops.extend(model_ops(Axis::Row, n));
+    let starts = vec![
+        ("empty".to_string(), start(vec![], vec![])),
+        ("cols:span-2-4 rows:single-descriptors".to_string(), start(col_layouts()[2].1.clone(), row_layouts()[1].1.clone())),
+    ];
+    out.push(Plan { name: "model-both-axes", level: Level::Model, starts, ops, sort_rows: true });
+    // UserModel level, columns (a styled row present in some starts: full-column styling then writes cells)
+    let n = if thorough { 3 } else { 2 };
+    let mut starts: Vec<(String, St)> = col_layouts()
+        .into_iter()
+        .map(|(name, cols)| (format!("cols:{}", name), start(cols, vec![])))
+        .collect();
+    starts.push(("cols:no-descriptors rows:styled-row-2".into(), start(vec![], styled_row.clone())));
+    starts.push(("cols:span-2-4 rows:styled-row-2".into(), start(col_layouts()[2].1.clone(), styled_row.clone())));
+    out.push(Plan { name: "user-columns", level: Level::User, starts, ops: user_ops(Axis::Col, n), sort_rows: true });
+    // UserModel level, rows
+    let mut starts: Vec<(String, St)> = row_layouts()
+        .into_iter()
+        .map(|(name, rows)| (format!("rows:{}", name), start(vec![], rows)))
+        .collect();
+    starts.push(("rows:no-descriptors cols:span-2-3".into(), start(styled_col.clone(), vec![])));
+    starts.push(("rows:single-descriptors cols:span-2-3".into(), start(styled_col.clone(), row_layouts()[1].1.clone())));
+    out.push(Plan { name: "user-rows", level: Level::User, starts, ops: user_ops(Axis::Row, n), sort_rows: true });
+    out
+}
+
+pub struct PlanOut {
+    states: u64,
+    transitions: u64,
+    nontrivial: u64,
+    depth: usize,
+    closed: bool,
+    /// sig -> (count, first witness)
+    found: BTreeMap<String, (u64, Disagreement)>,
+    errs: Vec<String>,
+    samples: Vec<Value>,
+}
+
+struct Node {
+    st: St,
+    parent: u32,
+    op: u16,
+    start: u16,
+}
+
+fn path_of(nodes: &[Node], ops: &[Op], mut i: usize) -> Vec<Op> {
+    let mut p = vec![];
+    while nodes[i].parent != u32::MAX {
+        p.push(ops[nodes[i].op as usize].clone());
+        i = nodes[i].parent as usize;
+    }
+    p.reverse();
+    p
+}
+
+pub fn search(plan: &Plan, max_states: usize) -> PlanOut {
+    let mut out = PlanOut {
+        states: 0,
+        transitions: 0,
+        nontrivial: 0,
+        depth: 0,
+        closed: false,
+        found: BTreeMap::new(),
+        errs: vec![],
+        samples: vec![],
+    };
+    let mut seen: HashSet<u128> = HashSet::new();
+    let mut nodes: Vec<Node> = vec![];
+    // start states: the getters must agree with the layout's meaning before anything is done
+    {
+        let mut w = Worker::new(Level::Model);
+        for (si, (name, st)) in plan.starts.iter().enumerate() {
+            load_layout(&mut w.model.workbook.worksheets[0], st);
+            match read_all(&w.model) {
+                Ok(got) => {
+                    let dummy = Op::Hidden(Axis::Col, 0, 0, false);
+                    for w in wrongs_of("start-layout getters disagree", &dummy, "", compare(&dummy, st, (&st.rc, &st.rr), (&st.rc, &st.rr), &got)) {
+                        out.found.insert(
+                            w.sig.clone(),
+                            (
+                                1,
+                                Disagreement {
+                                    sig: w.sig,
+                                    case: json!({"level": plan.level, "before": layout_json(st), "op": Value::Null, "reached_from": name}),
+                                    detail: w.detail,
+                                },
+                            ),
+                        );
+                    }
+                }
+                Err(e) => out.errs.push(format!("start layout {}: {}", name, e)),
+            }
+            if seen.insert(key_of(st, plan.sort_rows)) {
+                nodes.push(Node { st: st.clone(), parent: u32::MAX, op: 0, start: si as u16 });
+            }
+        }
+    }
+    let mut frontier: (usize, usize) = (0, nodes.len());
+    let n_ops = plan.ops.len();
+    loop {
+        let (lo, hi) = frontier;
+        if lo == hi {
+            out.closed = true;
+            break;
+        }
+        if nodes.len() > max_states {
+            break;
+        }
+        let chunk = ((hi - lo).div_ceil(crate::env::workers() * 4)).max(1);
+        let n_units = (hi - lo).div_ceil(chunk);
+        let nodes_ref = &nodes;
+        let seen_ref = &seen;
+        let res = crate::env::par_units(n_units, |u| {
+            let mut w = Worker::new(plan.level);
+            let mut succ: Vec<(u128, St, u32, u16)> = vec![];
+            let mut found: BTreeMap<String, (u64, u32, u16, String)> = BTreeMap::new();
+            let mut local: HashSet<u128> = HashSet::new();
+            let mut nontrivial = 0u64;
+            let a = lo + u * chunk;
+            let b = (a + chunk).min(hi);
+            for i in a..b {
+                let st = &nodes_ref[i].st;
+                for (oi, op) in plan.ops.iter().enumerate() {
+                    let (next, wrongs, nt) = w.step(st, op);
+                    if nt {
+                        nontrivial += 1;
+                    }
+                    for wr in wrongs {
+                        let e = found.entry(wr.sig).or_insert((0, i as u32, oi as u16, wr.detail));
+                        e.0 += 1;
+                    }
+                    if let Some(n) = next {
+                        let k = key_of(&n, plan.sort_rows);
+                        if !seen_ref.contains(&k) && local.insert(k) {
+                            succ.push((k, n, i as u32, oi as u16));
+                        }
+                    }
+                }
+            }
+            (succ, found, nontrivial)
+        });
+        out.transitions += ((hi - lo) * n_ops) as u64;
+        for r in res {
+            match r {
+                Ok((succ, found, nt)) => {
+                    out.nontrivial += nt;
+                    for (k, st, parent, op) in succ {
+                        if seen.insert(k) {
+                            let start = nodes[parent as usize].start;
+                            nodes.push(Node { st, parent, op, start });
+                        }
+                    }
+                    for (sig, (n, i, oi, detail)) in found {
+                        match out.found.get_mut(&sig) {
+                            Some(e) => e.0 += n,
+                            None => {
+                                let node = &nodes[i as usize];
+                                let path = path_of(&nodes, &plan.ops, i as usize);
+                                let d = Disagreement {
+                                    sig: sig.clone(),
+                                    case: case_json(
+                                        plan.level,
+                                        &node.st,
+                                        &plan.ops[oi as usize],
+                                        &plan.starts[node.start as usize].0,
+                                        &path,
+                                    ),
+                                    detail,
+                                };
+                                out.found.insert(sig, (n, d));
+                            }
+                        }
+                    }
+                }
+                Err(e) => out.errs.push(format!("plan {}: unit panicked: {}", plan.name, e)),
+            }
+        }
+        frontier = (hi, nodes.len());
+        out.depth += 1;
+    }
+    out.states = nodes.len() as u64;
+    for i in [0, nodes.len() / 2, nodes.len().saturating_sub(1)] {
+        if let Some(n) = nodes.get(i) {
+            let path = path_of(&nodes, &plan.ops, i);
+            out.samples.push(json!({"plan": plan.name, "start": plan.starts[n.start as usize].0, "reached_by": path,
+                "state": layout_json(&n.st)}));
+        }
+    }
+    out
+}
+
+pub fn run(run: &mut Run) {
+    let thorough = run.tier.thorough();
+    let mut bounds = vec![];
+    for plan in plans(thorough) {
+        let t0 = std::time::Instant::now();
+        let o = search(&plan, 6_000_000);
+        if std::env::var("VERIF_TRIAGE").is_ok() {
+            eprintln!("plan {} states={} transitions={} depth={} closed={} {:.1}s", plan.name, o.states, o.transitions, o.depth, o.closed, t0.elapsed().as_secs_f64());
+        }
+        run.states += o.states;
+        run.transitions += o.transitions;
+        run.evaluations += o.transitions;
+        run.traces += o.transitions;
+        run.nontrivial += o.nontrivial;
+        run.distinct_outcomes += o.states;
+        for e in o.errs {
+            run.machinery_errors.push(e);
+        }
+        if !o.closed {
+            run.cap_hit = Some(format!("plan {}: state cap reached before closure ({} states)", plan.name, o.states));
+        }
+        for (_, (n, d)) in o.found {
+            let sig = d.sig.clone();
+            run.add(d);
+            if let Some(e) = run.clusters.get_mut(&sig) {
+                e.0 += n - 1;
+            }
+        }
+        if let Some(s) = o.samples.get(1) {
+            run.sample(s.clone());
+        }
+        bounds.push(json!({
+            "plan": plan.name,
+            "through": plan.level,
+            "start_layouts": plan.starts.iter().map(|s| s.0.clone()).collect::<Vec<_>>(),
+            "operations": plan.ops.len(),
+            "states": o.states,
+            "transitions": o.transitions,
+            "closure_depth": o.depth,
+            "closed": o.closed,
+            "rows_keyed_in_index_order": plan.sort_rows,
+        }));
+    }
+    run.bound = json!({
+        "plans": bounds,
+        "observed_columns": OBS_COLS,
+        "observed_rows": OBS_ROWS,
+        "sizes": {"column": [DEF_W, ALT_W], "row": [DEF_H, ALT_H]},
+        "styles": ["bold", "italic", "(UserModel: font.b / font.i merged into the current style)"],
+    });
+    run.rule = "breadth-first search to closure of the real descriptor layouts reachable from the start layouts; every (state, operation) pair is executed on the real code and all getters of all observed columns and rows are compared with reference arrays in which exactly the addressed entries changed; through UserModel every transition is also undone and compared with the state before. non-trivial = transitions whose operation changes the reference".into();
+    run.exhaustive = run.cap_hit.is_none();
+    run.assume("states are merged when descriptor vectors, style-only cells and reference arrays are equal (where stated, row descriptors compared in row order, not vector order)");
+    run.assume("the size a hidden column / row will have when shown again is read with Worksheet::get_actual_column_width and from the public Row.height field");
+    run.assume("Some(default style) and no style are the same row / column style (no getter of a cell tells them apart)");
+    run.assume("after a disagreement the reference continues from what the engine holds, so each transition is judged on its own");
+}
+
+pub fn replay(case: &Value) -> Vec<Disagreement> {
+    let level: Level = match serde_json::from_value(case["level"].clone()) {
+        Ok(l) => l,
+        Err(_) => return vec![],
+    };
+    let st = match layout_parse(&case["before"]) {
+        Some(s) => s,
+        None => return vec![],
+    };
+    if case["op"].is_null() {
+        let mut w = Worker::new(Level::Model);
+        load_layout(&mut w.model.workbook.worksheets[0], &st);
+        return match read_all(&w.model) {
+            Ok(got) => {
+                let dummy = Op::Hidden(Axis::Col, 0, 0, false);
+                wrongs_of("start-layout getters disagree", &dummy, "", compare(&dummy, &st, (&st.rc, &st.rr), (&st.rc, &st.rr), &got))
+                    .into_iter()
+                    .map(|w| Disagreement { sig: w.sig, case: case.clone(), detail: w.detail })
+                    .collect()
+            }
+            Err(_) => vec![],
+        };
+    }
+    let op: Op = match serde_json::from_value(case["op"].clone()) {
+        Ok(o) => o,
+        Err(_) => return vec![],
+    };
+    let mut w = Worker::new(level);
+    let (_, wrongs, _) = w.step(&st, &op);
+    wrongs
+        .into_iter()
+        .map(|w| Disagreement { sig: w.sig, case: case.clone(), detail: w.detail })
+        .collect()
 }
